@@ -4,6 +4,7 @@ import (
 	"bytes"
 	"fmt"
 	"math/rand"
+	"net"
 	"net/http"
 	"sort"
 	"strings"
@@ -40,7 +41,7 @@ type obs struct {
 func TestC17(t *testing.T) {
 	world.Quiet()
 	run := rep.New("C17", "exploration",
-		"rate: for (rate 600/min, burst in {1,5,20}, global limit off/on) x client behaviours (1..8 TCP connections, keep-alive on/off, concurrent senders, one path / many paths incl. non-proxied ones / provider prefix / Anthropic route) a fixed number of requests is fired from 127.0.0.1 as fast as the connections allow; admitted = has a backend record; oracle: for every window of consecutive admissions (in backend receive order) their number never exceeds burst + rate x (last receive - earliest send), which a token bucket implies for every schedule, and every refused request is answered 429; size: bodies of L-1, L, L+1, 5L bytes around max_body_size with declared and chunked length on the proxy route must never reach a backend above L, and Anthropic requests above max_message_size get 413 in both encodings. distinct = distinct (config, behaviour) / (route, size, encoding)")
+		"rate: for (rate 600/min, burst in {1,5,20}, global limit off/on) x client behaviours (1..8 TCP connections, keep-alive on/off, concurrent senders, one path / many paths incl. non-proxied ones / provider prefix / Anthropic route) a fixed number of requests is fired from 127.0.0.1 as fast as the connections allow; admitted = has a backend record; oracle: for every window of consecutive admissions (in backend receive order) their number never exceeds burst + rate x (last receive - earliest send), which a token bucket implies for every schedule, and every refused request is answered 429; first contact: 8 simultaneous first requests from each of several hundred fresh loopback source addresses (every trial a client the limiter has never seen) must not admit more than burst; size: bodies of L-1, L, L+1, 5L bytes around max_body_size with declared and chunked length on the proxy route must never reach a backend above L, and Anthropic requests above max_message_size get 413 in both encodings. distinct = distinct (config, behaviour) / (route, size, encoding)")
 	run.Assume("the rate inequality uses the client's send stamp and the backend's receive stamp, so scheduling delays can only loosen it; 'buffered beyond the limit' is not observable from outside the process and is not judged")
 	rng := rand.New(rand.NewSource(rep.Seed()))
 	var cfgs []rcfg
@@ -71,6 +72,12 @@ func TestC17(t *testing.T) {
 		}
 	}
 	wg.Wait()
+	freshClientBursts(run)
+	if rep.Mode() == "race" {
+		run.Require("fresh_client_bursts", int64(rep.Pick(250, 1400)))
+	} else {
+		run.Require("fresh_client_bursts", int64(rep.Pick(500, 6000)))
+	}
 	sizeScenarios(run)
 	run.Require("rate_scenarios", int64(len(cfgs)*rep.Pick(6, 24)))
 	run.Require("requests_refused", 200)
@@ -201,6 +208,84 @@ func rateScenario(run *rep.Run, c rcfg, bh behaviour, id int) {
 		if st != 429 {
 			run.Violation(fmt.Sprintf("C17/refused-with-%d-not-429/%s", st, bh.Route), fmt.Sprintf("%d excess requests were refused with status %d, not 429", n, st), map[string]any{"config": c, "behaviour": bh, "refused_by_status": refused})
 		}
+	}
+}
+
+// freshClientBursts: the first requests of a client the limiter has never seen arrive all at
+// once on separate connections (every trial uses another loopback source address, so every
+// trial is a first contact): still at most burst of them may be admitted.
+func freshClientBursts(run *rep.Run) {
+	for wi, eng := range []string{"sherpa", "olla"} {
+		b := backend.NewStd("b", []string{"mall"}, llmresp.Handler("b"))
+		const burst, perMin = 2, 600
+		w, err := world.Start(world.Spec{Engine: eng, Balancer: "priority", PerIPPerMin: perMin, Burst: burst,
+			Endpoints: []world.Endpoint{{Name: "b", URL: b.URL(), Type: "ollama", Priority: 100}}})
+		if err != nil {
+			run.Inconclusive("world failed to start: " + err.Error())
+			b.Close()
+			continue
+		}
+		trials := rep.Pick(300, 3500)
+		if rep.Mode() == "race" {
+			trials = rep.Pick(150, 800)
+		}
+		const senders = 8
+		for k := 0; k < trials; k++ {
+			ip := net.IPv4(127, byte(10+wi), byte(1+k/250), byte(1+k%250))
+			start := make(chan struct{})
+			var wg sync.WaitGroup
+			sends := make([]int64, senders)
+			statuses := make([]int, senders)
+			for sdr := 0; sdr < senders; sdr++ {
+				wg.Add(1)
+				go func(sdr int) {
+					defer wg.Done()
+					tr := &http.Transport{DisableKeepAlives: true, DialContext: (&net.Dialer{LocalAddr: &net.TCPAddr{IP: ip}, Timeout: 5 * time.Second}).DialContext}
+					hc := &http.Client{Transport: tr, Timeout: 10 * time.Second}
+					req, _ := http.NewRequest("POST", fmt.Sprintf("%s/olla/proxy/v1/chat/completions?n=f%dk%ds%d", w.Base, wi, k, sdr), bytes.NewReader([]byte(`{"model":"mall","messages":[]}`)))
+					req.Header.Set("Content-Type", "application/json")
+					<-start
+					res := client.Do(hc, req)
+					sends[sdr], statuses[sdr] = res.TCall, res.Status
+				}(sdr)
+			}
+			close(start)
+			wg.Wait()
+			b.WaitIdle(2 * time.Second)
+			var firstSend, lastRecv int64
+			admitted := 0
+			for _, r := range b.ProxyRecords() {
+				if strings.Contains(r.RawQuery, fmt.Sprintf("n=f%dk%ds", wi, k)) {
+					admitted++
+					if r.TRecv > lastRecv {
+						lastRecv = r.TRecv
+					}
+				}
+			}
+			b.ResetRecords()
+			for _, t := range sends {
+				if firstSend == 0 || (t != 0 && t < firstSend) {
+					firstSend = t
+				}
+			}
+			run.Count("fresh_client_bursts", 1)
+			if k%50 == 0 {
+				run.Eval(fmt.Sprintf("fresh-client/%s/%d", eng, k))
+			} else {
+				run.EvalN(1)
+			}
+			if admitted == 0 {
+				run.Count("fresh_client_bursts_without_admission", 1)
+				continue
+			}
+			allowed := float64(burst) + float64(perMin)/60.0*float64(lastRecv-firstSend)/1e9
+			if float64(admitted) > allowed+1e-6 {
+				run.Violation("C17/rate-bound-exceeded/first-contact", fmt.Sprintf("%d of %d simultaneous first requests of a new client (%s) were admitted within %.3f s; burst %d at %g/s allows %.2f", admitted, senders, ip, float64(lastRecv-firstSend)/1e9, burst, float64(perMin)/60.0, allowed),
+					map[string]any{"engine": eng, "client_ip": ip.String(), "admitted": admitted, "statuses": statuses})
+			}
+		}
+		w.Stop()
+		b.Close()
 	}
 }
 
